@@ -540,7 +540,7 @@ func genAddr(thorough bool, bounds map[string]interface{}, cs *sink) {
 			cs.add(Case{K: "dec", S: hx(b), N: n}, Case{K: "dec", S: strings.ToUpper(hx(b)), N: n})
 		}
 	}
-	bounds["addresses"] = fmt.Sprintf("networks(6) × {P2PKH,P2SH,P2WPKH × %d 20-byte payloads; P2WSH,P2TR × %d 32-byte payloads; P2A; P2SH-from-script × 5 scripts; P2PK × %d keys × {compressed,uncompressed,hybrid}}; payload patterns: 00.., ff.., 00 01 02.., leading-zero runs of every length × 2 tails, trailing-zero runs of every length, one-hot 0x01/0x80 at every byte; each case: constructor→string→decode (own net, every other default net, upper case)→IsForNet×6→PayToAddrScript→GetScriptClass/ExtractPkScriptAddrs/ParsePkScript→back", len(p20), len(p32), len(testScalars))
+	bounds["addresses"] = fmt.Sprintf("networks(6) × {P2PKH,P2SH,P2WPKH × %d 20-byte payloads; P2WSH,P2TR × %d 32-byte payloads; P2A; P2SH-from-script × 5 scripts; P2PK × %d keys × {compressed,uncompressed,hybrid}}; payload patterns: 00.., ff.., 00 01 02.., leading-zero runs of every length × 2 tails, trailing-zero runs of every length, one-hot 0x01/0x80 at every byte; each case: constructor→string→decode (own net, every other default net, upper case)→IsForNet×6→PayToAddrScript→GetScriptClass/ExtractPkScriptAddrs/ParsePkScript→back; every P2PK case additionally runs all 39 sequences of <= 3 operations over {observe, SetFormat(compressed), SetFormat(uncompressed)} on a fresh AddressPubKey against the (point, format) model", len(p20), len(p32), len(testScalars))
 }
 
 // genSegwitMatrix: every witness version 0..16 (+17, 31) × every program length
